@@ -1029,7 +1029,7 @@ class NDArrayConverterBase(
             () if self._subarray_shape is None else self._subarray_shape
         )
 
-        partially_flattened_shape = (np.prod(shape),) + subarray_shape_not_none  # type: ignore
+        partially_flattened_shape = (int(np.prod(shape)),) + subarray_shape_not_none  # type: ignore
         result = np.ndarray(partially_flattened_shape, dtype=self._array_dtype)
         for i in range(partially_flattened_shape[0]):
             result[i] = self._element_converter.from_json_to_numpy(json_object[i])
